@@ -1,6 +1,6 @@
 (* Proofs about the streams sub-model of Model/Worker.v (which = 9 | 10): the "already delivered" filter of the file input
    (Plugin.PassEvent, the CRI short-cut of Pipeline.In) behind the worker. Everything is stated for EVERY decoder function
-   [dc] (what the pipeline's decoder and stream_field make of the admitted bytes), every table of saved stream offsets,
+   [dc] (what the pipeline's decoder and stream_field make of the accepted bytes), every table of saved stream offsets,
    every configuration; the worker side comes from worker_general (Proofs/Worker.v). *)
 From Verif Require Import Base.Sx Base.GoSem Model.Worker Proofs.Worker Proofs.WorkerMaint.
 From Coq Require Import Lia ZifyBool.
@@ -57,7 +57,7 @@ Proof.
   - destruct (pass_event sv s (fst e)); reflexivity.
 Qed.
 
-(* what is delivered = the admitted, decodable lines that PassEvent's rule selects, in their order; the short-cut of In
+(* what is delivered = the accepted, decodable lines that PassEvent's rule selects, in their order; the short-cut of In
    (sc) makes no difference *)
 Theorem sdeliver_filter dc sc sv c es : sdeliver dc sc sv c es = filter (passed sv) (sdecoded dc c es).
 Proof.
@@ -101,7 +101,7 @@ Proof.
   unfold sdecoded1. cbn [fst snd] in *. subst o'. rewrite (dataR_check_input c d d' Hm H2). reflexivity.
 Qed.
 
-(* every configuration, every start offset, every pass / read structure: the admitted and decoded lines behind the worker
+(* every configuration, every start offset, every pass / read structure: the accepted and decoded lines behind the worker
    are those of the specification (the complete lines of the content with their end offsets, size rule applied) *)
 Theorem worker_decoded dc c o sk0 rs : 0 <= wmax c ->
   sdecoded dc c (fst (rounds c (st_at o sk0) rs)) = sdecoded dc c (spec_emits c sk0 o (flat rs)).
@@ -277,4 +277,106 @@ Proof.
   pose proof (lz4_pass_exact n content offs o Hn) as H. cbv zeta in H. specialize (H Hm Hend).
   destruct (z_pass {| z_cfg := nolimit; z_offs := o :: offs; z_frames := [content]; z_n := n |}) as [[L es] st].
   destruct H as [_ [H _]]. rewrite sdeliver_filter_off. unfold m. rewrite H. apply sdeliver_filter.
+Qed.
+
+(* ---------------------------------------------------------------- the model satisfies the predicate of the check *)
+Lemma rounds_snoc c : forall rs st r,
+  rounds c st (rs ++ [r]) = let '(E, st1) := rounds c st rs in let '(e, st2) := round c st1 r in (E ++ e, st2).
+Proof.
+  induction rs as [|a rs IH]; intros st r; cbn [rounds app].
+  - destruct (round c st r) as [e s1]. rewrite app_nil_r. reflexivity.
+  - destruct (round c st a) as [e1 s1]. rewrite IH. destruct (rounds c s1 rs) as [E s2].
+    destruct (round c s2 r) as [e s3]. rewrite app_assoc. reflexivity.
+Qed.
+
+Lemma flat_snoc rs r : flat (rs ++ [r]) = flat rs ++ concat r.
+Proof. unfold flat. rewrite map_app, concat_app. cbn [map concat]. rewrite app_nil_r. reflexivity. Qed.
+
+Lemma sevent_roundtrip evs : opt_map sevent_of_sx (map sx_of_sevent evs) = Some evs.
+Proof.
+  induction evs as [|[[o s] p] evs IH]; [reflexivity|]. cbn [map opt_map sx_of_sevent sevent_of_sx]. rewrite IH. reflexivity.
+Qed.
+
+Lemma sevent_eqb_refl_list l : forall2b sevent_eqb l l = true.
+Proof.
+  induction l as [|[[o s] p] l IH]; [reflexivity|]. cbn [forall2b sevent_eqb].
+  rewrite Z.eqb_refl, !bytes_eqb_refl, IH. reflexivity.
+Qed.
+
+Lemma as_bool_of_bool b : as_bool (of_bool b) = Some b.
+Proof. destruct b; reflexivity. Qed.
+
+Lemma drop_all_app (f a : bytes) : drop (len f) (f ++ a) = a.
+Proof.
+  unfold drop, len. rewrite Nat2Z.id, skipn_app, skipn_all, Nat.sub_diag. reflexivity.
+Qed.
+
+Lemma sdeliver_app dc sc sv c E1 E2 : sdeliver dc sc sv c (E1 ++ E2) = sdeliver dc sc sv c E1 ++ sdeliver dc sc sv c E2.
+Proof. unfold sdeliver. apply flat_map_app. Qed.
+
+(* every run of the streams model of a plain file - any decoder, saved offsets whose minimum p0 lies inside what the file
+   holds when the job is added, any appends and read buffer sizes - satisfies the predicate the correspondence check
+   applies to the implementation's observable *)
+Theorem streams_pred_holds dc sc c sv p0 : 0 <= wmax c -> forall rl file st E rs,
+  0 <= p0 <= len file -> Forall (fun r : bytes * nat => (0 < snd r)%nat) rl ->
+  rounds c (st_at p0 false) rs = (E, st) -> flat rs = drop p0 file ->
+  s_pred dc sc c p0 sv file (sdeliver dc sc sv c E) rl (map sx_of_spass (s_trace dc sc c st sv file rl)) = true.
+Proof.
+  intros Hm. induction rl as [|[a n] rl IH]; intros file st E rs Hp Hn Hr Hf; [reflexivity|].
+  inversion Hn as [|x y Hn1 Hn2]; subst. cbn [snd] in Hn1.
+  pose proof (worker_general c p0 false rs Hm) as G0. cbv zeta in G0. rewrite Hr, Hf in G0.
+  destruct G0 as [_ [Hc0 _]]. rewrite len_drop in Hc0 by lia.
+  assert (Hcur : cur st = len file) by lia.
+  cbn [s_trace]. rewrite Hcur, drop_all_app.
+  destruct (round c st (chunks n a)) as [es st1] eqn:Hrd.
+  assert (Hr' : rounds c (st_at p0 false) (rs ++ [chunks n a]) = (E ++ es, st1)).
+  { rewrite rounds_snoc, Hr, Hrd. reflexivity. }
+  assert (Hf' : flat (rs ++ [chunks n a]) = drop p0 (file ++ a)).
+  { rewrite flat_snoc, Hf, chunks_concat by assumption. symmetry. apply drop_app_le. lia. }
+  pose proof (worker_general c p0 false (rs ++ [chunks n a]) Hm) as G. cbv zeta in G. rewrite Hr', Hf' in G.
+  destruct G as [HF [Hc [Hs Ha]]].
+  assert (Hlen : len (file ++ a) = len file + len a) by apply len_app.
+  pose proof (len_nonneg a) as Hna.
+  rewrite len_drop in Hc by lia.
+  assert (Hc1 : cur st1 = len (file ++ a)) by lia.
+  replace (cur st1 >? len (file ++ a)) with false by lia.
+  cbn [map sx_of_spass s_pred]. rewrite sevent_roundtrip, !as_bool_of_bool.
+  cbn [andb] in Hs. rewrite Hs.
+  replace (len (file ++ a) <? p0) with false by lia.
+  rewrite <- sdeliver_app.
+  assert (Heq : forall2b sevent_eqb (sdeliver dc sc sv c (E ++ es))
+                  (filter (fun e => pass_event sv (ev_stream e) (ev_off e))
+                          (sdecoded dc c (spec_emits c false p0 (drop p0 (file ++ a))))) = true).
+  { rewrite sdeliver_filter, (sdecoded_emitR dc c _ _ Hm HF). apply sevent_eqb_refl_list. }
+  rewrite Heq, Hc1, !Z.eqb_refl, (tail_relb_complete _ _ _ Ha). cbn [andb].
+  apply (IH (file ++ a) st1 (E ++ es) (rs ++ [chunks n a])); try assumption. lia.
+Qed.
+
+(* a pass sees the file only as a whole: what was there before and what the round appends may be regrouped *)
+Lemma s_trace_regroup dc sc c st sv f1 f2 a n rl :
+  s_trace dc sc c st sv (f1 ++ f2) ((a, n) :: rl) = s_trace dc sc c st sv f1 ((f2 ++ a, n) :: rl).
+Proof. cbn [s_trace]. rewrite <- app_assoc. reflexivity. Qed.
+
+Lemma s_pred_regroup dc sc c p0 sv f1 f2 got a n rl obs :
+  s_pred dc sc c p0 sv (f1 ++ f2) got ((a, n) :: rl) obs = s_pred dc sc c p0 sv f1 got ((f2 ++ a, n) :: rl) obs.
+Proof. destruct obs as [|o obs]; [reflexivity|]. cbn [s_pred]. rewrite <- app_assoc. reflexivity. Qed.
+
+(* from the start of a case: the job is at the smallest saved offset with an empty tail, nothing behind it is read yet *)
+Corollary streams_model_satisfies_pred dc sc c sv pre rl : 0 <= wmax c ->
+  0 <= s_start sv <= len pre -> Forall (fun r : bytes * nat => (0 < snd r)%nat) rl ->
+  s_pred dc sc c (s_start sv) sv pre [] rl
+         (map sx_of_spass (s_trace dc sc c {| cur := s_start sv; tail := []; skip := false |} sv pre rl)) = true.
+Proof.
+  intros Hm Hp Hn. destruct rl as [|[a n] rl]; [reflexivity|].
+  set (p0 := s_start sv) in *.
+  assert (Hpre : pre = take p0 pre ++ drop p0 pre) by (unfold take, drop; symmetry; apply firstn_skipn).
+  assert (Hl : len (take p0 pre) = p0) by (unfold take; rewrite len_firstn, Z2Nat.id by lia; lia).
+  remember (take p0 pre) as f1 eqn:Ef1. remember (drop p0 pre) as f2 eqn:Ef2. clear Ef1 Ef2.
+  rewrite Hpre. rewrite s_trace_regroup, s_pred_regroup.
+  inversion Hn as [|x y Hn1 Hn2]; subst x y.
+  apply (streams_pred_holds dc sc c sv p0 Hm ((f2 ++ a, n) :: rl) f1 (st_at p0 false) [] []).
+  - lia.
+  - constructor; assumption.
+  - reflexivity.
+  - rewrite <- Hl at 1. unfold flat, drop, len. rewrite Nat2Z.id, skipn_all. reflexivity.
 Qed.
